@@ -48,6 +48,12 @@ def check(model, rep):
     ctx = rm.ir.ctx
     sx = rm.ir.sx
     mod = rm.member.module
+    # a decision of run() taken on the IDENTITY of two numbers is not a function of the schedule: whether the run appends its
+    # instants then depends on CPython's small-integer cache (e.g. on the history being longer than 256 instants)
+    for ln, text in sorted(set(sx.identity_compares)):
+        rep.violation('C11.count', 'Solver.run:identity-test', f'`{text}` compares two numbers by object identity: equal values are "not the same" '
+                      f'beyond the cached small integers, so the run raises / branches on the length of the history instead of appending '
+                      f'round(T/dt) instants', f'{mod}:{ln}')
     params = run_params(rm)
     if len(params) != 2:
         rep.cannot('C11.grid', 'Solver.run', f'expected two TimeInterval parameters (dt, T), found {params}')
